@@ -1,12 +1,11 @@
 import Driver.Proto
-import Model.Notifier
+import Model.NotifierReentry
+import Model.NotifierConc
+import Model.NotifierJudge
 open Proto Nt
 
 /-- the harness' panicking targets -/
 def pan (t : Nat) : Bool := if t < 5 then t == 2 || t == 3 else t % 5 == 2
-
-/-- the harness' re-entrant target: executes the armed operation from inside its HandleNotification -/
-def reentrant : Nat := 6
 
 def nat? (s : String) : Option Nat := s.toNat?
 
@@ -78,38 +77,190 @@ def render (evs : List Event) (s : NSt) : String :=
 def strLe (a b : String) : Bool := a ≤ b
 
 /-- canonical dump of the three maps (white-box comparison; supports `maps_consistent`) -/
-def dump (s : NSt) : String :=
+def dumpPNB (s : NSt) : String :=
   let prodL := s.prod.map (fun (e : Name × List (Nat × Int)) =>
     bytesHex (joinDots e.1) ++ "=" ++
       ",".intercalate ((e.2.mergeSort (fun a b => a.1 ≤ b.1)).map (fun tp => s!"{tp.1}:{tp.2}")))
   let nameL := (s.names.mergeSort (fun a b => a.1 ≤ b.1)).map (fun (e : Nat × List Name) =>
     s!"{e.1}=" ++ ",".intercalate ((e.2.map (fun n => bytesHex (joinDots n))).mergeSort strLe))
   let nats (l : List Nat) := ",".intercalate ((l.mergeSort (fun a b => a ≤ b)).map toString)
-  "P[" ++ " ".intercalate (prodL.mergeSort strLe) ++ "] N[" ++ " ".intercalate nameL ++ "] B[" ++ nats s.batch ++
-    "] C[" ++ nats s.current ++ s!"] L{s.level} E{if s.enabled then 1 else 0}"
+  "P[" ++ " ".intercalate (prodL.mergeSort strLe) ++ "] N[" ++ " ".intercalate nameL ++ "] B[" ++ nats s.batch ++ "]"
 
-/-- the harness' second re-entrant target: batch-capable, calls back from HandleNotification and from BatchMode -/
-def reentrantBatch : Nat := 10
+def dump (s : NSt) : String :=
+  let nats (l : List Nat) := ",".intercalate ((l.mergeSort (fun a b => a ≤ b)).map toString)
+  dumpPNB s ++ " C[" ++ nats s.current ++ s!"] L{s.level} E{if s.enabled then 1 else 0}"
 
-def callsReentrant : Event → Bool
-  | .handle _ t _ _ => t == reentrant || t == reentrantBatch
-  | .batchMode _ t _ => t == reentrantBatch
-  | .recovered .. => false
+/-! ### the linearizability judge of the `race` area.
+
+The -race stress harness records, per round, what 2-4 goroutines observed while calling the real notifier concurrently
+(every call stamped at call and return; the targets of every Notify in delivery order, the targets of every BatchMode
+broadcast, the values of Enabled() / BatchLevel(), the maps copied out by RegisterFromNotifier) and the white-box dump of
+the registry after the round.  The judge below is the CONCLUSION of `C17.concurrent_registry_linearizable` /
+`notify_delivers_snapshot` / `batch_delivers_snapshot` with the model itself as the sequential reference: it searches an
+acquisition order `acq : List (goroutine × NtC.ROp)` — program order and real time respected, the brackets of one call
+(`NtC.Call.ops`) adjacent — such that `Mutex.seqExec NtC.rrun s₀ acq` hands every call exactly the results it observed
+and ends in a registry whose dump is the observed one. -/
+open NtC in
+inductive LObs where
+  | nothing
+  | handles (bad : Bool) (hs : List (Nat × List Nat))   -- (target, name bytes) in delivery order
+  | batches (bs : List (Nat × Bool))
+  | flag (b : Bool)
+  | num (n : Nat)
+  | text (bytes : List Nat)
+
+structure LCall where
+  call : NtC.Call
+  t0 : Nat
+  t1 : Nat
+  obs : LObs
+
+/-- the quiescent source notifier of the harness' `merge` calls -/
+def linOther : NSt := register (register {} 4 3 [[97], [98, 46, 120]]) 0 (-2) [[97, 46, 98]]
+
+def strBytes (s : String) : List Nat := s.toUTF8.toList.map (·.toNat)
+
+def sortedNats (l : List Nat) : List Nat := l.mergeSort (fun a b => a ≤ b)
+
+/-- do the results the sequential execution hands to the brackets of this call explain what the call observed -/
+def obsOk (c : LCall) (rs : List NtC.RRes) : Bool :=
+  match c.call, rs, c.obs with
+  | .enabled, [.bool b], .flag b' => b == b'
+  | .batchLevel, [.nat n], .num n' => n == n'
+  | .startBatch, [.targets ts], .batches bs => bs.all (·.2) && sortedNats (bs.map (·.1)) == sortedNats ts
+  | .endBatch, [.targets ts], .batches bs => bs.all (fun b => !b.2) && sortedNats (bs.map (·.1)) == sortedNats ts
+  | .notify raw, [.bool en, .table tb], .handles bad hs =>
+    NtJ.notifyObsOk en tb raw bad hs   -- Model/NotifierJudge.lean; `C17.judge_accepts_only_allowed_deliveries`
+  | .copyOut, [.maps p nm b], .text bytes => bytes == strBytes (dumpPNB (NtC.ofMaps p nm b))
+  | .register .., [.unit], _ => true
+  | .unregister _, [.unit], _ => true
+  | .setEnabled _, [.unit], _ => true
+  | .reset, [.unit], _ => true
+  | .mergeIn .., [.unit], _ => true
+  | _, _, _ => false
+
+def natList? (sep : String) (s : String) : Option (List String) := if s == "-" then some [] else some (s.splitOn sep)
+
+def parsePair (s : String) : Option (String × String) :=
+  match s.splitOn ":" with
+  | [a, b] => some (a, b)
+  | _ => none
+
+def parseCall (tok : String) : Option LCall :=
+  match tok.splitOn "," with
+  | kind :: c :: r :: args =>
+    match nat? c, nat? r with
+    | some t0, some t1 =>
+      let mk (call : NtC.Call) (obs : LObs) : Option LCall := some ⟨call, t0, t1, obs⟩
+      match kind, args with
+      | "reg", t :: p :: names =>
+        match nat? t, parseInt? p, names.mapM hexBytes? with
+        | some t, some p, some raws => mk (.register t p raws) .nothing
+        | _, _, _ => none
+      | "unreg", [t] => (nat? t).bind fun t => mk (.unregister t) .nothing
+      | "enable", [b] => mk (.setEnabled (b == "1")) .nothing
+      | "reset", [] => mk .reset .nothing
+      | "merge", [] => mk (.mergeIn linOther.prod linOther.names linOther.batch) .nothing
+      | "enabled", [b] => mk .enabled (.flag (b == "1"))
+      | "level", [n] => (nat? n).bind fun n => mk .batchLevel (.num n)
+      | "copyout", [h] => (hexBytes? h).bind fun bs => mk .copyOut (.text bs)
+      | "start", [bs] | "end", [bs] =>
+        match (natList? "/" bs).bind (·.mapM fun x => (parsePair x).bind fun (a, b) => (nat? a).map (·, b == "1")) with
+        | some l => mk (if kind == "start" then .startBatch else .endBatch) (.batches l)
+        | none => none
+      | "notify", [raw, bad, hs] =>
+        match hexBytes? raw,
+          (natList? "/" hs).bind (·.mapM fun x => (parsePair x).bind fun (a, b) =>
+            match nat? a, hexBytes? b with | some a, some b => some (a, b) | _, _ => none) with
+        | some raw, some l => mk (.notify raw) (.handles (bad == "1") l)
+        | _, _ => none
+      | _, _ => none
+    | _, _ => none
+  | _ => none
+
+/-- split the tokens of a round at the `|` separators: one program per goroutine -/
+def splitProgs : List String → List (List String)
+  | [] => [[]]
+  | "|" :: rest => [] :: splitProgs rest
+  | t :: rest => match splitProgs rest with
+    | [] => [[t]]
+    | p :: ps => (t :: p) :: ps
+
+/-- remove the head call of program `g` -/
+def popProg : List (List LCall) → Nat → List (List LCall)
+  | [], _ => []
+  | p :: ps, 0 => p.tail :: ps
+  | p :: ps, g + 1 => p :: popProg ps g
+
+/-- all end states (distinct dumps, at most 16; with `final` given: the first one whose dump is `final`) of acquisition
+    orders that explain the round from `s`; `acq` = the order so far, reversed -/
+def linSearch (final : Option String) : Nat → List (List LCall) → NSt → List (Nat × NtC.ROp) → List (NSt × List (Nat × NtC.ROp)) →
+    List (NSt × List (Nat × NtC.ROp))
+  | 0, _, _, _, found => found
+  | fuel + 1, progs, s, acq, found =>
+    if progs.all List.isEmpty then
+      let d := dump s
+      if (match final with | some f => f == d | none => true) && !found.any (fun x => dump x.1 == d) && found.length < 16
+      then (s, acq.reverse) :: found else found
+    else
+      let heads := progs.map List.head?
+      (List.range progs.length).foldl (fun found g =>
+        if final.isSome && !found.isEmpty then found else
+        match (heads[g]?).join with
+        | none => found
+        | some a =>
+          -- real time: a call that returned before `a` was made must already be in the order
+          if heads.any (fun h => match h with | some b => decide (b.t1 < a.t0) | none => false) then found else
+          let r := Mutex.seqExec NtC.rrun s (a.call.ops.map (fun op => (g, op)))
+          if obsOk a (r.1.map (·.2.2)) then
+            linSearch final fuel (popProg progs g) r.2 ((a.call.ops.map (fun op => (g, op))).reverse ++ acq) found
+          else found) found
+
+structure LinSt where
+  cands : List NSt := [{}]
+
+/-- judge one round from every candidate start state; the verdict is re-derived from the found order by ONE run of
+    `Mutex.seqExec NtC.rrun` over the whole acquisition order (the left-hand side of
+    `C17.concurrent_registry_linearizable`) -/
+def linRound (st : LinSt) (ws : List String) : LinSt × String :=
+  match ws with
+  | fin :: toks =>
+    match hexBytes? fin, (splitProgs toks).mapM (·.mapM parseCall) with
+    | some fb, some progs =>
+      let final : Option String := if fb.isEmpty then none else some (String.ofList (fb.map Char.ofNat))
+      let total := (progs.map List.length).foldl (· + ·) 0
+      let ends := st.cands.foldl (fun acc s =>
+        if final.isSome && !acc.isEmpty then acc else
+        (linSearch final (total + 1) progs s [] []).foldl (fun acc (e : NSt × List (Nat × NtC.ROp)) =>
+          let whole := Mutex.seqExec NtC.rrun s e.2
+          if dump whole.2 == dump e.1 && !acc.any (fun x => dump x == dump e.1) && acc.length < 16 then e.1 :: acc else acc) acc) []
+      if ends.isEmpty then ({ cands := [] }, "lin-fail") else ({ cands := ends }, s!"lin-ok {ends.length}")
+    | _, _ => (st, "bad-op")
+  | [] => (st, "bad-op")
+
+/-- the fixed tables shared with the harness, printed from the model's definitions (the harness prints its own copy) -/
+def tablesLine : String :=
+  let bits (f : Nat → Bool) : String := String.ofList ((List.range 128).map (fun i => if f i then '1' else '0'))
+  let hk (n : Nat) : String := match handlerKind n with | .good => "good" | .bad => "bad" | .absent => "nil"
+  "tables B" ++ bits batchCapable ++ " P" ++ bits pan ++
+    " RH" ++ bits (fun t => reentersOn (.handle 0 t [] 0)) ++ " RB" ++ bits (fun t => reentersOn (.batchMode 0 t true)) ++
+    s!" H {hk 0},{hk 1},{hk 2}"
 
 /-- driver state: the world and the armed operation of the re-entrant target -/
 structure DSt where
   w : World := World.init
   armed : Option Op := none
+  lin : LinSt := {}
 
-/-- Transcription of re-entrancy.  Every exported method finishes its work on the registry and releases the lock before
-    the first callback, and iterates over a goroutine-local snapshot; so an operation performed by a target from inside
-    `HandleNotification` / `BatchMode` (any operation: Register … Notify, StartBatch, EndBatch) sees the registry as the
-    outer call left it, does not change what the outer call still delivers, and its own callbacks are simply made in
-    between: the observation of the line is the union of both, the state is `Nt.step` composed twice.  The armed
-    operation fires once, at the first callback of a re-entrant target. -/
+/-- Re-entrancy is part of the model: `Nt.stepRe` (Model/NotifierReentry.lean) executes the delivery loops with the world
+    threaded through them; a callback of a re-entrant target (`Nt.reentersOn`: targets 6 and 10) performs the armed
+    operation as a complete exported call at that moment.  `C17.reentrant_call_spec` says what comes out. -/
 def stepLine (d : DSt) (line : String) : DSt × String :=
   match words line with
   | ["reset"] => ({}, "reset")
+  | ["tables"] => (d, tablesLine)
+  | ["lin0"] => ({ d with lin := {} }, "lin0")
+  | "lin" :: rest => let r := linRound d.lin rest; ({ d with lin := r.1 }, r.2)
   | ["dump", n] => match nat? n with | some n => (d, dump (d.w n)) | none => (d, "bad-op")
   | "arm" :: n :: rest =>
     match nat? n, parseOp rest with
@@ -119,12 +270,7 @@ def stepLine (d : DSt) (line : String) : DSt × String :=
     match parseOp ws with
     | none => (d, "bad-op")
     | some op =>
-      let r := Nt.step pan d.w op
-      let fired := r.2.any callsReentrant
-      match fired, d.armed with
-      | true, some op' =>
-        let r' := Nt.step pan r.1 op'
-        ({ w := r'.1, armed := none }, render (r.2 ++ r'.2) (r'.1 (opNotifier op)))
-      | _, a => ({ w := r.1, armed := a }, render r.2 (r.1 (opNotifier op)))
+      let r := Nt.stepRe pan (d.w, d.armed) op
+      ({ d with w := r.1.1, armed := r.1.2 }, render r.2 (r.1.1 (opNotifier op)))
 
 def main : IO Unit := Proto.run stepLine {}
